@@ -364,6 +364,7 @@ fn run(out: &mut Out, sched: &Value) {
     w.ctl.set_write_budget(0, None);
     out.ev(json!({"e": "drain"}));
     let mut done: std::collections::BTreeSet<u64> = Default::default();
+    let mut last = verif::snapshot(&w.m);
     for _round in 0..10_000 {
         let mut progress = false;
         while w.accept(out) {
@@ -388,6 +389,12 @@ fn run(out: &mut Out, sched: &Value) {
                     break;
                 }
             }
+        }
+        // a pending op may still have moved frames into the table (e.g. into the open buffer)
+        let now = verif::snapshot(&w.m);
+        if now != last {
+            progress = true;
+            last = now;
         }
         if !progress {
             break;
